@@ -13,7 +13,8 @@ WORD_STOP = set(' #"\'\t\n\r={}()+,*$\\')
 INTS = [0, 1, -1, 7, 8, 42, 255, -128, 65536, 1000000, -2147483648, 2147483647, 9223372036854775807, -9223372036854775807]
 FLOATS = [0.0, 1.5, -2.25, 1000.0, 0.001, 123456.789, -0.5, 3.0, 1e10, 2.5e-3]
 STR_ALPHA = list('abcxyzABC019 _-./:') + ['"', '\\', "'", '$', '{', '}', '#', '*', '/', '=', ',', '(', ')', '+', '\n', '\t', '\xe9', '\x01', '\x7f', '\xff', '|']
-TITLES = ['a', 'b', 'c', 'web', 'main', 'T', 'two words', 'x=y', 'q"uote', 'back\\slash', "it's", '', 'A', 'B', '${HOME}', '/*c*/', '#h']
+TITLES = ['a', 'b', 'c', 'web', 'main', 'T', 'two words', 'x=y', 'q"uote', 'back\\slash', "it's", '', 'A', 'B', '${HOME}', '/*c*/', '#h',
+          'a-title-that-is-longer-than-thirty-two-bytes-for-sure', 'L' * 70]
 
 
 def word_ok(s):
@@ -130,6 +131,8 @@ class SchemaOpts:
         self.title_dupes = True
         self.nocase_names = False
         self.title_single = False
+        self.simple = False
+        self.null_sub = False
         self.__dict__.update(kw)
 
 
@@ -150,6 +153,8 @@ def gen_schema(rng, so=None, depth=0, counter=None):
                 fl |= F_NODEFAULT
             if so.keystrval and rng.random() < 0.2:
                 sub = gen_schema(rng, SchemaOpts(**dict(so.__dict__, sections=False, maxopts=2)), depth + 1, counter) if rng.random() < 0.5 else []
+                if not sub and so.null_sub and rng.random() < 0.5:
+                    sub = None      # CFG_SEC(name, NULL, CFGF_KEYSTRVAL)
                 decls.append(D('k%d' % k, 'sec', fl | F_KEYSTRVAL, sub=sub))
             else:
                 decls.append(D('s%d' % k, 'sec', fl, sub=gen_schema(rng, so, depth + 1, counter)))
@@ -177,6 +182,11 @@ def gen_schema(rng, so=None, depth=0, counter=None):
             if t == 'str' and rng.random() < 0.15:
                 dv = None
         name = ('%s%d' % (t[0], k)) if not so.nocase_names else rng.choice(['%s%d', '%sX%d', '%sx%d']) % (t[0].upper() if rng.random() < 0.5 else t[0], k)
+        if rng.random() < 0.03:
+            name += '_with_a_name_longer_than_thirty_two_bytes'
+        if so.simple and not (fl & F_LIST) and rng.random() < 0.12:
+            decls.append(D(name, t, 0, None if t == 'str' else dv, simple=True))
+            continue
         decls.append(D(name, t, fl, dv))
     return decls
 
@@ -249,7 +259,7 @@ def gen_items(rng, decls, toks, depth=0, nitems=None, fancy=True, used_titles=No
                 toks.append(val_token(rng, d.typ, fancy)[0])
             else:
                 toks.append(['{', '{', None])
-                k = rng.randint(0, 4)
+                k = rng.randint(0, 4) if rng.random() < 0.97 else rng.randint(17, 40)
                 for i in range(k):
                     if i:
                         toks.append([',', ',', None])
@@ -264,6 +274,8 @@ def gen_items(rng, decls, toks, depth=0, nitems=None, fancy=True, used_titles=No
 def gen_keyvals(rng, d, toks, fancy, to):
     for _ in range(rng.randint(0, 4)):
         key = rng.choice(['alpha', 'beta', 'gamma', 'k1', 'k2', 'path', 'x.y', 'A'])
+        if to.get('nocase') and rng.random() < 0.4:
+            key = ''.join(c.upper() if rng.random() < 0.5 else c.lower() for c in key)
         toks.append(['name', key, key])
         toks.append(['=', '=', None])
         s = rand_string(rng)
